@@ -1,9 +1,9 @@
 package rules
 
 import (
-	"os"
 	"go/token"
 	"go/types"
+	"os"
 	"strings"
 
 	"golang.org/x/tools/go/ssa"
